@@ -125,11 +125,24 @@ fn open1<S: Scheme>(
 thread_local! {
     /// the verifier entry point of the current case: `check`, or `batch_check` on a one-label query set
     static VIA_BATCH: std::cell::Cell<bool> = const { std::cell::Cell::new(false) };
+    /// ... or `check_combinations` on the single-term combination [1 * p]
+    static VIA_COMB: std::cell::Cell<bool> = const { std::cell::Cell::new(false) };
 }
 
 fn check1<S: Scheme>(keys: &Keys<S>, c: &LC<S>, z: &S::Pt, v: S::F, proof: &Proof<S>) -> Out<bool> {
     let mut sp = sponge::<S::F>(0);
     let mut r = rng(7);
+    if VIA_COMB.with(|b| b.get()) {
+        use ark_poly_commit::{BatchLCProof, LCTerm, LinearCombination};
+        let lc = LinearCombination::new("lc", vec![(S::F::one(), LCTerm::PolyLabel(c.label().clone()))]);
+        let mut qs = std::collections::BTreeSet::new();
+        qs.insert(("lc".to_string(), ("z".to_string(), z.clone())));
+        let mut ev = std::collections::BTreeMap::new();
+        ev.insert(("lc".to_string(), z.clone()), v);
+        let bp: BatchProof<S> = vec![proof.clone()].into();
+        let lp = BatchLCProof { proof: bp, evals: None };
+        return guard(|| S::PC::check_combinations(&keys.vk, [&lc], [c], &qs, &ev, &lp, &mut sp, &mut r));
+    }
     if VIA_BATCH.with(|b| b.get()) {
         let mut qs = std::collections::BTreeSet::new();
         qs.insert((c.label().clone(), ("z".to_string(), z.clone())));
@@ -223,9 +236,11 @@ where
         ctx.label("keys_failed(C09)");
         return Ok(());
     };
-    let via_batch = (c.seed >> 7) % 3 == 0;
+    let via = (c.seed >> 7) % 4;
+    let (via_batch, via_comb) = (via == 0, via == 1);
     VIA_BATCH.with(|b| b.set(via_batch));
-    ctx.label(if via_batch { "entry:batch_check(one label)" } else { "entry:check" });
+    VIA_COMB.with(|b| b.set(via_comb));
+    ctx.label(if via_batch { "entry:batch_check(one label)" } else if via_comb { "entry:check_combinations([1*p])" } else { "entry:check" });
     let info = keys.info.clone();
     let sup = info.supported;
     let enforced: Vec<usize> = if info.any_bound {
@@ -579,7 +594,7 @@ pub fn spec() -> PropertySpec {
     add!(Ipa);
     PropertySpec {
         id: "C04",
-        rule: "(Every verification of a case goes either through check or - one case in three - through batch_check on a one-label query set.) (iv) key requests whose enforced-bound list contains a bound in (supported, max] or beyond max (Marlin, Sonic): if trim serves such a key (MarlinKZG10 does for bounds <= max, by design), commit of a polynomial whose degree exceeds the supported degree must still fail. Mislabel group: one case in three presents the commitment under a bound outside the enforced set. Three groups per scheme (Marlin, Sonic, IPA) over generated keys (max degree, supported degree, enforced set B, unsorted/duplicated): (i) admission grid - declared bound d drawn from B / from 1..=supported outside B / beyond supported, degree in {d-1,d,d+1}: commit (and open with a relabelled polynomial) must return Err or abort exactly when deg > d or d not in B or deg > supported, and an admissible boundary case must commit, open and verify; (ii) mislabel - commit under d' in B, present as d in B, d != d', deg <= min(d,d'), with the honest proof and with the library prover run on the relabelled polynomial and the old state: not accepted; (iii) the degree-bound part dropped (with and without the label), taken from another polynomial, or replaced by the plain commitment: not accepted. Points for (ii),(iii) are admissible by construction (Marlin, Sonic: p(z) != 0; IPA: also z != 0 and z^(d-d') != 1); polynomials in (iii) are non-constant. Non-trivial: d != max(B) or hiding present, and for (i) |deg - d| <= 1.",
+        rule: "(Every verification of a case goes through check (half of the cases), batch_check on a one-label query set, or check_combinations on the single-term combination [1*p] (a quarter each).) (iv) key requests whose enforced-bound list contains a bound in (supported, max] or beyond max (Marlin, Sonic): if trim serves such a key (MarlinKZG10 does for bounds <= max, by design), commit of a polynomial whose degree exceeds the supported degree must still fail. Mislabel group: one case in three presents the commitment under a bound outside the enforced set. Three groups per scheme (Marlin, Sonic, IPA) over generated keys (max degree, supported degree, enforced set B, unsorted/duplicated): (i) admission grid - declared bound d drawn from B / from 1..=supported outside B / beyond supported, degree in {d-1,d,d+1}: commit (and open with a relabelled polynomial) must return Err or abort exactly when deg > d or d not in B or deg > supported, and an admissible boundary case must commit, open and verify; (ii) mislabel - commit under d' in B, present as d in B, d != d', deg <= min(d,d'), with the honest proof and with the library prover run on the relabelled polynomial and the old state: not accepted; (iii) the degree-bound part dropped (with and without the label), taken from another polynomial, or replaced by the plain commitment: not accepted. Points for (ii),(iii) are admissible by construction (Marlin, Sonic: p(z) != 0; IPA: also z != 0 and z^(d-d') != 1); polynomials in (iii) are non-constant. Non-trivial: d != max(B) or hiding present, and for (i) |deg - d| <= 1.",
         assumptions: vec![
             "enforced sets stay inside the documented trim domain 1..=supported_degree",
             "degree-bound enforcement of Marlin and IPA is a polynomial identity at the query point: roots of p and points with z^(d-d')=1 are excluded as the modules document",
